@@ -4,8 +4,7 @@ from engine import run_sim_check
 import drivercases as dc
 from asyncchecks import *
 
-THEOREMS = ["socket_task_priority", "one_socket_per_step", "unregister_removes_both", "disconnect_unregisters_first",
-            "receive_delivers_what_recv_returned"]
+THEOREMS = ["one_socket_per_step", "socket_task_first_ready", "socket_task_priority", "unregister_removes_both", "receive_delivers_what_recv_returned", "disconnect_unregisters_first"]
 
 
 def generate(rnd, tier):
